@@ -324,13 +324,17 @@ def main():
             if kr['status'] == 'ok': n_dis += 1
         else:
             bounded.append(ent)
+            obligations_seen['kani/' + hname] = {'text': '(bounded, not counted as proved) ' + kr.get('what', ''), 'fn': kr.get('fn'), 'kind': 'kani-bounded'}
         if kr['status'] == 'failed':
             failed_all.append({'ob': hname, 'props': [pid], 'fn': kr.get('fn'), 'msg': kr.get('reason', ''), 'rendered': kr.get('output', '')[-3000:], 'kind': 'kani', 'unit': 'kani', 'full': full, 'witness': kr.get('witness')})
         lemmas_ev.append(ent)
     # classify failures: known finding / violation / undecided(no baseline)
     violations, known_hits, no_base = [], [], []
     open_k = {(k['property'], k['obligation']): k for k in known.get('open', [])}
+    seen_full = set()
     for f in failed_all:
+        if f['full'] in seen_full: continue
+        seen_full.add(f['full'])
         key = (pid, f['full'])
         if key in open_k:
             known_hits.append((f, open_k[key]))
